@@ -180,8 +180,13 @@ func CheckCompactJWS(token []byte) error {
 		return errors.New("token is not a JWS in compact serialization")
 	}
 	for _, segment := range segments {
-		if _, err := base64.RawURLEncoding.Strict().DecodeString(string(segment)); err != nil {
+		decoded, err := base64.RawURLEncoding.Strict().DecodeString(string(segment))
+		if err != nil {
 			return fmt.Errorf("token is not a JWS in compact serialization: %w", err)
+		}
+		// the decoder skips line breaks, also in strict mode: a segment is canonical only if it is what its bytes encode to
+		if base64.RawURLEncoding.EncodeToString(decoded) != string(segment) {
+			return errors.New("token is not a JWS in compact serialization: segment is not canonical base64url")
 		}
 	}
 	return nil
